@@ -1,3 +1,6 @@
 import Deepali.Model.Vec
 import Deepali.Model.Homog
 import Deepali.Model.Grid
+import Deepali.Proto
+import Deepali.Drv.All
+import Deepali.Props.C01
